@@ -25,6 +25,8 @@ def run(ctx):
     b = lib.body(FOR)
     if not res.anchor(b is not None, FOR):
         return res
+    from ..owners import load_known_table
+    aggtree.configure(lib, set(load_known_table()))
     roots = []
     for blk in b.blocks:
         for s in blk["stmts"]:
